@@ -503,13 +503,15 @@ theorem evict_writes_pending (cfg : Cfg) (st : ISt) (k : String) (r : Rec) (hp :
 /-- `FlushCache` leaves no pending write behind. -/
 theorem flush_empties_write_set (cfg : Cfg) (o : Opts) (hc : o.cache = .delay) (st : ISt) (now : Int) :
     (ifFlush cfg o st now).1.wcache = [] := by
-  unfold ifFlush; simp [hc]
+  cases ha : o.all <;> simp [ifFlush, hc, ha]
 
-/-- … and every pending record reaches the storage through the batch path (`Apply`, then put or immediate delete). -/
-theorem flush_writes_one (cfg : Cfg) (o : Opts) (hc : o.cache = .delay) (st : ISt) (r : Rec) (now : Int)
+/-- … and every pending record reaches the storage through the batch path (`Apply`, then put or immediate delete) —
+    on an interface that is local and internal, as `Options.DelayCachedWrites` demands (`PutMany` refuses any other:
+    `PB.C03.flush_without_all_permissions_stores_nothing`). -/
+theorem flush_writes_one (cfg : Cfg) (o : Opts) (hc : o.cache = .delay) (ha : o.all = true) (st : ISt) (r : Rec) (now : Int)
     (hw : st.wcache = [r]) :
     (ifFlush cfg o st now).1.store = storePut cfg st.store { r with md := o.apply r.md now } := by
-  unfold ifFlush flushOne; simp [hc, hw]
+  unfold ifFlush flushOne; simp [hc, hw, ha]
 
 /-- Invariant of every history through an interface with delayed writes (any backend, delete mode, eviction
     pattern; `ClearCache` excluded — it drops cache entries without the evict handler): a record that still
